@@ -611,10 +611,54 @@ def bool_switch_polarity(body, bb):
     return out
 
 
-def guards_of(body, bb):
-    """All (discr E, polarity/values, switch_bb) whose edge dominates block bb.
-    For bool switches polarity is True/False (looking through Not); for others the value tuple."""
+def _flag_sources(body, l, depth=0):
+    """[(block, bool)] — the constant assignments a bool local's value can come from (through whole-local copies); None if any source is not a constant."""
+    if depth > 5:
+        return None
     out = []
+    defs = body.defs.get(l, [])
+    if not defs:
+        return None
+    for d_ in defs:
+        if d_[2] != "assign" or d_[3]["place"]["p"] or d_[3]["rv"]["k"] != "use":
+            return None
+        op = d_[3]["rv"]["op"]
+        if op["k"] == "const" and "bool" in op:
+            out.append((d_[0], bool(op["bool"])))
+        elif op["k"] in ("copy", "move") and not op["place"]["p"]:
+            sub = _flag_sources(body, op["place"]["l"], depth + 1)
+            if sub is None:
+                return None
+            out.extend(sub)
+        else:
+            return None
+    return out
+
+
+def guards_of(body, bb, _depth=0):
+    """All (discr E, polarity/values, switch_bb) whose edge dominates block bb.
+    For bool switches polarity is True/False (looking through Not); for others the value tuple.
+    A branch on a *flag* — a bool local whose every definition is a constant — taken with the value that exactly one definition assigns
+    is also guarded by whatever guards that definition (`let p = matches!(c, …); … if p { X }`: X runs only when the match arm ran)."""
+    out = []
+    if _depth < 3:
+        for s in body.rblocks:
+            t = body.blocks[s]["term"]
+            if t["k"] != "switch" or t["discr_ty"] != "bool" or t["discr"]["k"] == "const" or t["discr"]["place"]["p"]:
+                continue
+            srcs = _flag_sources(body, t["discr"]["place"]["l"])
+            if srcs is None or len(srcs) < 2:
+                continue
+            pols = bool_switch_polarity(body, s)
+            for (node, vals, tgt) in body.switch_edges(s):
+                pol = pols.get(node)
+                if pol is None or not body.dominates(node, bb):
+                    continue
+                setters = [d_ for d_ in srcs if d_[1] == pol]
+                if len(setters) == 1 and setters[0][0] != s:
+                    for g in guards_of(body, setters[0][0], _depth + 1):
+                        if g not in out:
+                            out.append(g)
     for s in body.rblocks:
         t = body.blocks[s]["term"]
         if t["k"] != "switch":
